@@ -1,5 +1,5 @@
 import ArcSwapModel.Inv.Own
-import ArcSwapModel.Inv.Ctl
+import ArcSwapModel.Inv.HoldH
 import ArcSwapModel.Props.C03
 import ArcSwapModel.Tie.ListNewHelping
 import ArcSwapModel.Tie.ListNewFast
@@ -147,9 +147,19 @@ theorem C13_control_owner {st : State} (h : Reachable st) (hf : st.sh.fault = no
       ((st.sh.nodes n).control = .gen g ∨ ∃ j, (st.sh.nodes n).control = .env j) :=
   (CtlInv.reachable h hf).owner n hne
 
+/-- `confirm`: "slot not NONE" — the value part: a thread about to publish into the helping slot of
+    its node (`f4`) finds no value there (a holder would be another thread owning the same node) -/
+theorem C13_confirm_slot_names_nothing {st : State} (h : Reachable st) (hf : st.sh.fault = none) (t n g cand : Nat)
+    (hlp : (st.th t).op.lp? = some (.f4 g cand)) (hn : (st.th t).loc.node = some n) (a : Nat) :
+    (st.sh.nodes n).hslot ≠ .ptr a := by
+  refine hslot_free_unless_held (HHoldInv.reachable h hf) (OwnInv.reachable h) t n ?_ a (fun hh => ?_)
+  · rw [ownsT_of_lp _ _ hlp]; exact hn
+  · obtain ⟨ld, h1, h2⟩ := OpSt.hholds_lp hh
+    rw [hlp] at h1; cases h1; exact h2
+
 /-!
-Not proved yet: the assertions on the *slots* being `NONE` when claimed (`fast::get_debt`,
-`helping::confirm`: need the slot-ownership invariant) and `envelope holds NONE`.  No hang: reads are
+Not proved yet: the assertion on the *fast* slot being `NONE` when claimed (`fast::get_debt`: needs
+"a slot found empty by its owner stays empty until the owner fills it") and `envelope holds NONE`.  No hang: reads are
 bounded (C08); writers: C09.  The harness runs every execution with debug assertions on and
 `catch_unwind` around each operation; the wrap is reached by presetting the counter (`wrap` family
 and the two D1 scenarios in the corpus).
